@@ -223,6 +223,84 @@ fn check_text(s: &str, st: &mut Stats) -> Result<(), String> {
     Ok(())
 }
 
+/// RLP of `depth` nested lists around an empty list, built without recursion.
+fn nested_lists(depth: usize) -> Vec<u8> {
+    fn hdr_len(n: usize) -> usize {
+        if n < 56 {
+            1
+        } else {
+            1 + (usize::BITS as usize / 8 - n.leading_zeros() as usize / 8)
+        }
+    }
+    let mut lens = Vec::with_capacity(depth + 1);
+    lens.push(1usize);
+    for i in 0..depth {
+        let l = lens[i];
+        lens.push(hdr_len(l) + l);
+    }
+    let mut out = Vec::with_capacity(lens[depth]);
+    for i in (0..depth).rev() {
+        let n = lens[i];
+        if n < 56 {
+            out.push(0xc0 + n as u8);
+        } else {
+            let be = n.to_be_bytes();
+            let skip = be.iter().take_while(|b| **b == 0).count();
+            out.push(0xf7 + (8 - skip) as u8);
+            out.extend_from_slice(&be[skip..]);
+        }
+    }
+    out.push(0xc0);
+    out
+}
+
+/// The calls a deeply nested value is handed to, library only (no harness-side parsing of the value: the
+/// harness's own recursive RLP reader would be the one to overflow).  Runs in a child process.
+fn deep_calls(depth: usize) -> Result<(), String> {
+    use crate::keys::{FamId, TinyKey};
+    let raw = nested_lists(depth);
+    let key = TinyKey([9u8; 32], FamId::Tiny);
+    let r = guarded(|| {
+        let mut e = Enr::<TinyKey>::builder().build(&key).map_err(|e| format!("{e:?}"))?;
+        let _ = e.insert_raw_rlp("deep", bytes::Bytes::from(raw.clone()), &key);
+        let _ = e.insert("deep", &crate::exec::ItemEnc(raw.clone()), &key);
+        let _ = e.remove_insert(std::iter::empty::<&[u8]>(), vec![("deep", raw.as_slice())].into_iter(), &key);
+        let mut b = Enr::<TinyKey>::builder();
+        b.add_value_rlp("deep", bytes::Bytes::from(raw.clone()));
+        let _ = b.build(&key);
+        let _ = <Enr<TinyKey> as alloy_rlp::Decodable>::decode(&mut raw.as_slice());
+        let _ = Vec::<Enr<TinyKey>>::decode(&mut raw.as_slice());
+        Ok::<(), String>(())
+    });
+    match r {
+        Ok(x) => x,
+        Err(p) => Err(format!("a {depth}-deep nested list value made a call panic: {p}")),
+    }
+}
+
+/// Deep-nesting cases run in a child process: a stack overflow aborts the process and cannot be caught.
+fn deep_case(depth: usize, case: &Case) -> Result<(), String> {
+    if std::env::var("VERIF_CHILD").is_ok() {
+        return deep_calls(depth);
+    }
+    let dir = std::path::PathBuf::from(std::env::var("VERIF_DIR").unwrap_or_else(|_| "/verif".into())).join("replays");
+    let _ = std::fs::create_dir_all(&dir);
+    let file = dir.join(format!("child-C03-deep-{depth}-{}.json", std::process::id()));
+    std::fs::write(&file, serde_json::to_string(&crate::engine::replay_doc("C03", case, "deep nesting (child process)")).unwrap()).map_err(|e| format!("cannot write {file:?}: {e}"))?;
+    let exe = std::env::current_exe().map_err(|e| format!("current_exe: {e}"))?;
+    let out = std::process::Command::new(exe).args(["C03", "--replay"]).arg(&file).env("VERIF_CHILD", "1").env("VERIF_AUX", "1").output().map_err(|e| format!("cannot spawn the child process: {e}"))?;
+    let _ = std::fs::remove_file(&file);
+    match out.status.code() {
+        Some(0) => Ok(()),
+        Some(1) => Err(format!("{}", String::from_utf8_lossy(&out.stdout).lines().find(|l| l.contains("violation detail")).unwrap_or("violation in the child process"))),
+        other => Err(format!(
+            "a value of {depth} nested lists ({} bytes) handed to insert_raw_rlp / insert / remove_insert / add_value_rlp+build / decode killed the process (exit {other:?}): {}",
+            nested_lists(depth).len(),
+            String::from_utf8_lossy(&out.stderr).lines().rev().find(|l| !l.trim().is_empty()).unwrap_or("")
+        )),
+    }
+}
+
 impl Property for C03 {
     fn id(&self) -> &'static str {
         "C03"
@@ -254,6 +332,10 @@ impl Property for C03 {
             [0u8, 1, 0x37, 0x38, 0x7f, 0x80, 0xff].into_iter().map(move |b| Case::Wire(WireCase { bytes: vec![a, b, b, b, b, b, b, b, b, 0xc0], label: "header".into(), has_custom: false }))
         });
         let texts = crate::props::c12::head_edits().into_iter().map(Case::Text);
+        // values nested far deeper than any record could hold (argument size is not bounded by the record limit)
+        let depths: Vec<usize> = if quick { vec![5_000, 50_000, 400_000] } else { vec![5_000, 50_000, 400_000, 1_500_000] };
+        let deep = depths.into_iter().map(|d| Case::Stream(crate::cases::StreamCase { items: vec![], suffix: vec![], as_list: false, label: format!("deep-nesting:{d}") }));
+        let texts = texts.chain(deep);
         Box::new(ex.chain(small).chain(hdr).chain(texts))
     }
     fn fuzz_plans(&self) -> Vec<(&'static str, u64)> {
@@ -300,6 +382,13 @@ impl Property for C03 {
     }
     fn check(&self, case: &Case, st: &mut Stats) -> Result<(), String> {
         match case {
+            Case::Stream(s) if s.label.starts_with("deep-nesting:") => {
+                let depth: usize = s.label["deep-nesting:".len()..].parse().map_err(|_| "bad deep-nesting label".to_string())?;
+                st.evals(6);
+                st.label("kind:deep-nesting");
+                st.nontrivial(&s.label);
+                deep_case(depth, case)
+            }
             Case::Hist(h) => {
                 let mut v = V { st, nontrivial: false };
                 run_history(h, false, &mut v)?;
